@@ -18,6 +18,7 @@ import json
 
 from harness.core import VERIF, Ctx, clist, cnat, copt, cz, guarded
 from harness.props import maxflow_events as EV
+from harness.props import maxflow_shapes as SH
 
 ID = "C08"
 ANCHORS = ["solvor/flow.py"]
@@ -206,33 +207,85 @@ def fixed_cases():
 
 # ---------------------------------------------------------------- implementation run
 def to_dict(case):
-    return {u: [tuple(e) for e in adj] for u, adj in case["graph"]}
+    return SH.materialize(case)[0]
 
 
 def run_impl(case, timeout=5.0):
+    """-> ('ok', solution with the case's JSON labels, objective, iterations, alias_note) | ('exc', ..) | ('hang',)
+    The call is built by SH.materialize (label scheme, containers, mapping type of case['variant']); afterwards the
+    caller's graph object is compared with a freshly built equal one (alias_note = what changed, or None)."""
     from solvor.flow import max_flow
 
-    g = to_dict(case)
-    res = guarded(max_flow, g, case["source"], case["sink"], timeout=timeout)
+    g, s, t, back = SH.materialize(case)
+    res = guarded(max_flow, g, s, t, timeout=timeout)
     if res[0] != "ok":
         return res
+    alias = SH.same_graph(g, SH.materialize(case)[0])
     r = res[1]
-    return ("ok", dict(r.solution), r.objective, r.iterations)
+    sol = {}
+    try:
+        items = list(dict(r.solution).items())
+    except Exception as e:  # noqa: BLE001
+        return ("exc", "BadSolution", f"solution {r.solution!r} is not a dictionary: {e}")
+    for k, x in items:
+        try:
+            kk = (back[k[0]], back[k[1]]) if isinstance(k, tuple) and len(k) == 2 else k
+        except (KeyError, TypeError):
+            kk = k
+        sol[kk] = x
+    if len(sol) != len(items):
+        return ("exc", "BadSolution", f"two keys of the solution denote the same arc: {r.solution!r}")
+    return ("ok", sol, r.objective, r.iterations, alias)
+
+
+def run_sequence(case, timeout=5.0):
+    """A: ONE graph object passed to three consecutive calls: (s, t), (t, s), (s, t).  -> None or a description:
+    the first and the third answer must be equal, the object unchanged, the middle answer must satisfy the oracle."""
+    from solvor.flow import max_flow
+
+    g, s, t, back = SH.materialize(case)
+
+    def call(a, b):
+        res = guarded(max_flow, g, a, b, timeout=timeout)
+        if res[0] != "ok":
+            return res
+        sol = {}
+        for k, x in dict(res[1].solution).items():
+            try:
+                sol[(back[k[0]], back[k[1]])] = x
+            except (KeyError, TypeError, IndexError):
+                sol[k] = x
+        return ("ok", sol, res[1].objective, res[1].iterations, None)
+
+    first = call(s, t)
+    snap = json.dumps(sorted((repr(k), v) for k, v in first[1].items())) if first[0] == "ok" else None
+    middle = call(t, s)
+    third = call(s, t)
+    if first[0] == "ok" and snap != json.dumps(sorted((repr(k), v) for k, v in first[1].items())):
+        return "the dictionary returned by the first call changed during later calls"
+    if first[:4] != third[:4]:
+        return f"one graph object, calls (s,t),(t,s),(s,t): third answer {third[1:4]!r} differs from the first {first[1:4]!r}"
+    alias = SH.same_graph(g, SH.materialize(case)[0])
+    if alias:
+        return f"the caller's graph was modified by a sequence of calls: {alias}"
+    rev = {"graph": case["graph"], "source": case["sink"], "sink": case["source"]}
+    bad = oracle(rev, middle)
+    if bad:
+        return f"second call of a sequence on one graph object, source and sink swapped: {bad}"
+    return None
 
 
 # ---------------------------------------------------------------- independent oracle (the property itself)
 def pooled(case):
     cap = {}
-    nodes = [case["source"], case["sink"]]
+    nodes = {case["source"]: None, case["sink"]: None}
     for u, adj in case["graph"]:
-        if u not in nodes:
-            nodes.append(u)
+        nodes.setdefault(u)
         for e in adj:
             v, c = e[0], e[1]
-            if v not in nodes:
-                nodes.append(v)
+            nodes.setdefault(v)
             cap[(u, v)] = cap.get((u, v), 0) + c
-    return cap, nodes
+    return cap, list(nodes)
 
 
 def min_cut(case):
@@ -258,14 +311,18 @@ def min_cut(case):
 
 
 def oracle(case, out):
-    """None if the output obeys the property, else a description."""
+    """None if the output obeys the property, else a description.  Maximum: capacity of a minimum cut by enumeration,
+    or case['expected'] for the large instances whose answer is known by construction."""
     if out[0] != "ok":
         return f"implementation {out[0]}: {out[1:]}"
-    _, sol, obj, _its = out
+    _, sol, obj, _its = out[:4]
+    if len(out) > 4 and out[4]:
+        return f"the caller's graph was modified by the call: {out[4]}"
     cap, nodes = pooled(case)
     s, t = case["source"], case["sink"]
     if isinstance(obj, bool) or not isinstance(obj, int):
         return f"objective {obj!r} is not an int"
+    net = {}
     for k, x in sol.items():
         if not (isinstance(k, tuple) and len(k) == 2):
             return f"solution key {k!r} is not an arc"
@@ -277,25 +334,28 @@ def oracle(case, out):
             return f"non-positive entry {x} on {k} in the returned dictionary"
         if x > cap[k]:
             return f"flow {x} on {k} exceeds the pooled capacity {cap[k]}"
+        net[k[1]] = net.get(k[1], 0) + x
+        net[k[0]] = net.get(k[0], 0) - x
     for n in nodes:
-        if n == s or n == t:
-            continue
-        fin = sum(x for (u, v), x in sol.items() if v == n)
-        fout = sum(x for (u, v), x in sol.items() if u == n)
-        if fin != fout:
-            return f"conservation violated at {n!r}: in {fin} out {fout}"
-    net_t = sum(x for (u, v), x in sol.items() if v == t) - sum(x for (u, v), x in sol.items() if u == t)
-    if net_t != obj:
-        return f"net flow into the sink {net_t} != objective {obj}"
-    mc = min_cut(case)
-    if obj != mc:
-        return f"objective {obj} != minimum cut capacity {mc}"
+        if n != s and n != t and net.get(n, 0) != 0:
+            return f"conservation violated at {n!r}: net inflow {net[n]}"
+    if net.get(t, 0) != obj:
+        return f"net flow into the sink {net.get(t, 0)} != objective {obj}"
+    if "expected" in case:
+        if obj != case["expected"]:
+            return f"objective {obj} != maximum flow {case['expected']} known by construction ({case.get('big')})"
+    else:
+        mc = min_cut(case)
+        if obj != mc:
+            return f"objective {obj} != minimum cut capacity {mc}"
     return None
 
 
 def shrink(case, still_bad, budget=400):
     """drop arcs / empty adjacency lists while the case still fails (at most `budget` re-runs)"""
     cur = json.loads(json.dumps(case))
+    if "expected" in case:      # the by-construction answer does not survive dropping arcs
+        return cur
     calls = [0]
     inner = still_bad
 
@@ -369,7 +429,7 @@ def coq_sol(sol, idx):
 def sol_ok_for_coq(out, idx):
     if out[0] != "ok":
         return False
-    _, sol, obj, its = out
+    _, sol, obj, its = out[:4]
     if isinstance(obj, bool) or not isinstance(obj, int) or not isinstance(its, int):
         return False
     for k, x in sol.items():
@@ -382,7 +442,7 @@ def sol_ok_for_coq(out, idx):
 
 def corr_case(case, out, idx):
     if sol_ok_for_coq(out, idx):
-        _, sol, obj, its = out
+        _, sol, obj, its = out[:4]
         o = f"(Some ({coq_sol(sol, idx)}, {cz(obj)}, {cnat(its)}))"
     else:
         o = "None"
@@ -390,7 +450,7 @@ def corr_case(case, out, idx):
 
 
 def spec_case(case, out, idx):
-    _, sol, obj, _its = out
+    _, sol, obj, _its = out[:4]
     return f"({coq_wgraph(case, idx)}, {cnat(idx[case['source']])}, {cnat(idx[case['sink']])}, {coq_sol(sol, idx)}, {cz(obj)})"
 
 
@@ -401,7 +461,22 @@ SPEC_CHK = "fun c => match c with (g, s, t, sol, obj) => spec_check g s t sol ob
 
 
 def canon(case):
+    if "big" in case:
+        return json.dumps([case["big"], len(case["graph"]), sum(len(a) for _, a in case["graph"]), case["expected"], case.get("variant")], sort_keys=True)
     return json.dumps(case, sort_keys=True)
+
+
+def source_capacity(case):
+    return sum(e[1] for u, adj in case["graph"] if u == case["source"] for e in adj)
+
+
+def coq_size_ok(case):
+    return len(case["graph"]) <= 40 and sum(len(a) for _, a in case["graph"]) <= 150
+
+
+def coq_corr_ok(case):
+    # the model's outer fuel is a unary nat (source capacity + 1): huge capacities are checked by spec_check only
+    return coq_size_ok(case) and source_capacity(case) <= 3000
 
 
 def _corpus():
@@ -410,7 +485,7 @@ def _corpus():
     if d.exists():
         for f in sorted(d.glob("*.json")):
             o = json.loads(f.read_text())
-            out.append({"graph": o["graph"], "source": o["source"], "sink": o["sink"]})
+            out.append({k: o[k] for k in ("graph", "source", "sink", "variant", "expected", "big") if k in o})
     return out
 
 
@@ -428,20 +503,28 @@ def run(ctx: Ctx):
                 "e1 exhausted->restored->reused arc, e2 partial cancellation on an anti-parallel input pair, e3 e2 with the remainder "
                 "needed to respect the capacity, e4 a node pair crossed by >= 3 augmentations, e5 BFS ends after a reverse-only arc was used "
                 "(corpus/C08/e*_*.json replayed first, fresh search from ctx.rng every run); "
+                "HARDENING classes: L half of all generated cases + a dedicated family are called through a label map (None, False/0/0.0, '', (), "
+                "b'', frozenset(), inf, user objects, equal-but-not-identical fresh tuples / strings / ints >= 257); I adjacency list/tuple, entries "
+                "tuple/list, graph dict/OrderedDict/defaultdict/read-only proxy; S large instances with the answer known by construction (chains "
+                "to 4097, 65537 parallel arcs, fans, complete and hidden matchings, disjoint paths, cycles); M capacities 2^31..10^18, 2^53+-1, "
+                "huge+tiny, scaling by 2^k (objective scales); A caller's graph unchanged after every call, every 4th case called again after "
+                "another call; O no options; H events as above; "
                 "non-trivial = maximum flow >= 1 reached with >= 2 augmentations or any event e1-e5; distinct = canonical JSON of the case. "
                 "Histogram `event` counts cases per event, reverse_arc_used cases where an augmentation cancelled flow (reference port).")
     ctx.proof_step(["C08"])
     ctx.notes.append("valid_input = source <> sink and capacities >= 0; max_flow(g, s, s) does not return (path_flow stays inf): "
                      "outside the quantifier, one such call is run with a 1 s limit and must correspond to the model's None")
     ctx.notes.append("the returned dictionary is compared as a finite map (Python dict equality); the order of its keys is not modelled")
-    ctx.notes.append("oracle: minimum cut by enumeration of all source-side subsets (<= 12 nodes)")
+    ctx.notes.append("oracle: minimum cut by enumeration of all source-side subsets (<= 12 nodes); large instances: value known by construction")
+    ctx.notes.append("Coq correspondence covers cases with <= 40 adjacency keys, <= 150 arcs and source capacity <= 3000 (the model's outer fuel is "
+                     "a unary nat); huge capacities are judged by the oracle and by the Coq spec_check (Z), large sizes by the oracle only")
     ctx.notes.append("events e1-e5 are detected by an instrumented Python port of the algorithm (maxflow_events.ref_run); it only steers "
                      "generation and fills histograms; histogram reference_port_agrees shows it reproduces the implementation's result")
-    n_lay = ctx.budget(300, 5000)
-    n_adv = ctx.budget(300, 5000)
-    n_rnd = ctx.budget(250, 5000)
-    n_gad = ctx.budget(150, 2500)          # per gadget family
-    n_search = ctx.budget(25000, 400000)   # reference runs spent on the event-directed search
+    n_lay = ctx.budget(240, 5000)
+    n_adv = ctx.budget(240, 5000)
+    n_rnd = ctx.budget(200, 5000)
+    n_gad = ctx.budget(120, 2500)          # per gadget family
+    n_search = ctx.budget(20000, 400000)   # reference runs spent on the event-directed search
 
     # open known findings (none at the time of writing): replay their structured witnesses first
     for f in ctx.open_findings():
@@ -452,42 +535,107 @@ def run(ctx: Ctx):
             if wbad:
                 ctx.known_hit(f["id"], f"witness still reproduces: {wbad}")
 
-    cases = _corpus() + fixed_cases()
-    n_fixed = len(cases)
-    cases += [gen_layered(ctx.rng) for _ in range(n_lay)]
-    cases += [gen_adversarial(ctx.rng) for _ in range(n_adv)]
-    cases += [gen_random(ctx.rng) for _ in range(n_rnd)]
-    n_gen = len(cases)
+    thorough = ctx.tier == "thorough"
+    n_lab = ctx.budget(80, 1500)           # L: forced special label schemes
+    n_mag = ctx.budget(160, 2500)          # M: huge / mixed / scaled capacities
+    n_big = ctx.budget(16, 120)            # S: large instances, answer known by construction
+    rng = ctx.rng
+    cases, kinds = [], []
+
+    def add(kind, cs):
+        for c in cs:
+            cases.append(c)
+            kinds.append(kind)
+
+    base = _corpus() + fixed_cases()
+    add("fixed", base)
+    add("layered", [gen_layered(rng) for _ in range(n_lay)])
+    add("adversarial", [gen_adversarial(rng) for _ in range(n_adv)])
+    add("random", [gen_random(rng) for _ in range(n_rnd)])
     for fam in (EV.gen_zigzag, EV.gen_antiparallel):
         k = 0
         while k < n_gad:
-            c = fam(ctx.rng)
+            c = fam(rng)
             if EV.n_nodes(c) <= MAX_NODES:
-                cases.append(c)
+                add("gadget", [c])
                 k += 1
-    n_fam = len(cases)
-    seeds = [c for c in cases[:n_fixed] if EV.ref_run(c)["events"]]
-    cases += [c for c, _ in EV.event_search(ctx.rng, n_search, seeds=seeds)]
+    seeds = [c for c in base if "big" not in c and EV.ref_run(c)["events"]]
+    add("event_search", [c for c, _ in EV.event_search(rng, n_search, seeds=seeds)])
+    # I + L on everything generated: half of the generated cases are called through a random label map / container types
+    for i in range(len(base), len(cases)):
+        if rng.random() < 0.5:
+            cases[i]["variant"] = SH.random_variant(rng, cases[i])
+    small = [c for c in cases if "big" not in c]
+    # L: special label pools (None, False / 0 / 0.0, "", (), inf, user objects, fresh equal objects) on small cases incl. the corpus
+    schemes = list(SH.SCHEMES)
+    for k in range(n_lab):
+        c = json.loads(json.dumps(rng.choice(small)))
+        c["variant"] = SH.random_variant(rng, c, force_labels=schemes[k % len(schemes)])
+        add("labels", [c])
+    # M: magnitudes
+    for _ in range(n_mag):
+        c = SH.magnify(rng, rng.choice(small))
+        if rng.random() < 0.3:
+            c["variant"] = SH.random_variant(rng, c)
+        add("magnitude", [c])
+    # S: sizes
+    for i in range(n_big):
+        c = SH.gen_big(rng, thorough, SH.BIG_KINDS[i % len(SH.BIG_KINDS)])
+        if rng.random() < 0.4:
+            c["variant"] = SH.random_variant(rng, c)
+        add("big", [c])
 
     corr, spec, metas, spec_metas = [], [], [], []
+    prev = None
     for k, case in enumerate(cases):
         if len(ctx.violations) >= 3:
             ctx.notes.append(f"stopped after 3 violations: {len(cases) - k} generated cases not run")
             break
+        kind = kinds[k]
         out = run_impl(case)
         ctx.evaluations += 1
         bad = oracle(case, out)
-        cap, nodes = pooled(case)
-        kind = ("fixed" if k < n_fixed else "layered" if k < n_fixed + n_lay else "adversarial" if k < n_fixed + n_lay + n_adv
-                else "random" if k < n_gen else "gadget" if k < n_fam else "event_search")
+        var = case.get("variant") or {}
         ctx.count("kind", kind)
-        ctx.count("nodes", len(nodes))
+        nn = len(SH.first_occurrence(case))
+        ctx.count("nodes", nn if nn <= 12 else "13-64" if nn <= 64 else "65-1024" if nn <= 1024 else "1025+")
         ctx.count("arcs", min(20, sum(len(a) for _, a in case["graph"])))
+        ctx.count("labels", var.get("labels") or "plain")
+        ctx.count("mapping", var.get("mapping", "dict"))
+        ctx.count("containers", f"{var.get('adj', 'list')}/{var.get('entry', 'tuple')}")
+        if "big" in case:
+            ctx.count("big", case["big"])
+        if "magnitude" in case:
+            ctx.count("magnitude", case["magnitude"])
+        # A: same input again (after another call in between) gives the same answer
+        if not bad and k % 4 == 0:
+            if prev is not None:
+                run_impl(prev[0])
+            again = run_impl(case)
+            ctx.evaluations += 1
+            if again[:4] != out[:4]:
+                bad = f"the same input gave a different answer on a second call: {again[1:4]!r} (first: {out[1:4]!r})"
+            ctx.count("repeat_call", "same" if again[:4] == out[:4] else "different")
+        if not bad and k % 8 == 3 and "expected" not in case and case["source"] != case["sink"]:
+            bad = run_sequence(case)
+            ctx.evaluations += 3
+            ctx.count("call_sequence", "ok" if bad is None else "bad")
+        # M: scaling all capacities by 2^k scales the value
+        if not bad and "scaled_from" in case and out[0] == "ok":
+            bout = run_impl(case["scaled_from"])
+            if bout[0] == "ok" and oracle(case["scaled_from"], bout) is None and out[2] != bout[2] * case["scale"]:
+                bad = f"capacities scaled by {case['scale']}: objective {out[2]} != {case['scale']} * {bout[2]}"
+        prev = (case, out)
         if bad:
-            small = shrink(case, lambda c: judge(c)[1] is not None)
-            sout, sbad = judge(small)
-            ctx.violation(f"max_flow output violates the property: {sbad}",
-                          {"kind": "maxflow", **small, "impl_out": repr(sout), "original": case, "original_verdict": bad})
+            still = (lambda c: judge(c)[1] is not None)
+            small_case = shrink(case, still, budget=25 if out[0] == "hang" else 400) if oracle(case, out) else case
+            sout, sbad = judge(small_case)
+            g_, s_, t_, _ = SH.materialize(small_case)
+            n_arcs = sum(len(a) for _, a in small_case["graph"])
+            payload = small_case if n_arcs <= 5000 else {k2: v for k2, v in small_case.items() if k2 != "graph"}
+            ctx.violation(f"max_flow output violates the property: {sbad or bad}",
+                          {"kind": "maxflow", **payload, "call": f"max_flow({g_!r}, {s_!r}, {t_!r})"[:3000],
+                           "impl_out": repr(sout)[:3000], "original": case if n_arcs <= 200 else None, "original_verdict": bad})
         if out[0] == "ok":
             obj, its = out[2], out[3]
             ctx.count("objective", obj if isinstance(obj, int) and obj < 8 else "8+")
@@ -500,17 +648,21 @@ def run(ctx: Ctx):
                 ctx.count("event", ev)
             if not ref["events"]:
                 ctx.count("event", "none")
-            if cancels > 0:
+            if cancels > 0 and "big" not in case:
                 ptot, _, _ = trace_ref(case, False)
                 ctx.count("pinned_code_would_return_less", ptot < tot)
             if (isinstance(obj, int) and obj >= 1 and its >= 2) or ref["events"]:
                 ctx.nontriv(canon(case))
-            ctx.sample({"case": case, "solution": sorted((repr(k), v) for k, v in out[1].items()), "objective": obj, "iterations": its}, 3)
+            if "big" not in case:
+                ctx.sample({"case": case, "solution": sorted((repr(k), v) for k, v in out[1].items()), "objective": obj, "iterations": its}, 3)
         else:
             ctx.count("impl_outcome", out[0])
+        if not coq_size_ok(case):
+            continue
         idx = numbering(case)
-        corr.append(corr_case(case, out, idx))
-        metas.append((case, out))
+        if coq_corr_ok(case):
+            corr.append(corr_case(case, out, idx))
+            metas.append((case, out))
         if sol_ok_for_coq(out, idx):
             spec.append(spec_case(case, out, idx))
             spec_metas.append((case, out))
@@ -569,14 +721,18 @@ def run(ctx: Ctx):
 
 
 def replay(obj):
-    if obj.get("kind") != "maxflow" and "graph" not in obj:
-        print("replay names an unchecked obligation:", obj.get("unchecked") or obj.get("what"))
+    if "graph" not in obj:
+        print("replay has no input graph:", obj.get("unchecked") or obj.get("what"))
         return 1
-    case = {"graph": obj["graph"], "source": obj["source"], "sink": obj["sink"]}
+    case = {k: obj[k] for k in ("graph", "source", "sink", "variant", "expected", "big") if k in obj}
     out = run_impl(case)
     bad = oracle(case, out)
-    print("call: max_flow(%r, %r, %r)" % (to_dict(case), case["source"], case["sink"]))
-    print("implementation output:", out)
-    print("minimum cut (enumeration):", min_cut(case))
+    g, s, t, _ = SH.materialize(case)
+    print(("call: max_flow(%r, %r, %r)" % (g, s, t))[:4000])
+    print("implementation output (labels of the replay file):", repr(out)[:4000])
+    if "expected" in case:
+        print("maximum flow known by construction:", case["expected"])
+    elif len(pooled(case)[1]) <= 16:
+        print("minimum cut (enumeration):", min_cut(case))
     print("oracle verdict:", bad or "ok")
     return 1 if bad else 0
